@@ -9,6 +9,7 @@ import TJ.Props.C17Gen
 import TJ.Props.C15Gen
 import TJ.Props.C08Gen
 import TJ.Props.C16Gen
+import TJ.Props.C18Gen
 import TJ.Props.C12Gen
 import TJ.Props.C10Gen
 namespace TJ.Props.NonVacuous
@@ -206,5 +207,43 @@ example : ∃ (fuel : Nat) (st0 : St) (g0 : GS) (st' : St), callFun prog fuel id
           | 1, hk => exact ⟨.pub, by simp at hk; subst hk; rfl, by decide⟩⟩⟩
       · show 50 ≤ 50; decide)
   exact ⟨fuel, st0, g0, st', h1, h5, h6⟩
+
+open TJ.Props.C15Gen TJ.Props.C16Gen TJ.Props.C18Gen in
+/-- `TJ.Props.C18Gen.init_system_history_is_model`: the OS call is interrupted, then fails permanently (`tinyjambu_prng_init` reports 0); later it is asked to try again and
+    succeeds (the explicit reseed); the history completes and the object holds the hand model's state computed from the OS outcome script -/
+example : ∃ (fuel : Nat) (st0 : St) (p0 : Prng) (e0 : Ent) (p' : Prng) (e' : Ent) (t : List Ev) (N' : Nat) (st' : St),
+    Prng.init [1, 2, 3] ⟨[], [.eintr, .err 5, .eagain, .ok (List.replicate 32 5)], 0⟩ = some (0, p0, e0) ∧
+    callFun prog fuel idx_tinyjambu_prng_init true [(mkPtr 0 0, .pub), (mkPtr 2 (0 + 0), .pub), (3, .pub)]
+      ⟨memP, sysScript [.eintr, .err 5, .eagain, .ok (List.replicate 32 5)] 6, []⟩ = .ok .normal #[(0, .pub), (mkPtr 0 0, .pub), (mkPtr 2 (0 + 0), .pub), (3, .pub)] st0 ∧
+    p0.runOps e0 [.gen 40, .reseed, .feed [2, 3], .gen 50] = some (p', e', t) ∧
+    PRun geoS st0 [.gen 40, .reseed, .feed [2, 3], .gen 50] st' ∧ GMI geoS sysCb (toGSs p' e' N') st' := by
+  obtain ⟨fuel, st0, ret, p0, e0, p', e', t, N', st', h1, h2, h3, h4, h5, h6⟩ := init_system_history_is_model geoS rfl
+    ⟨memP, sysScript [.eintr, .err 5, .eagain, .ok (List.replicate 32 5)] 6, []⟩ (Array.replicate 96 (0, .undef))
+    (Array.replicate 64 (0, .undef)) 0 [1, 2, 3] [.gen 40, .reseed, .feed [2, 3], .gen 50] ⟨[], [.eintr, .err 5, .eagain, .ok (List.replicate 32 5)], 0⟩ 6
+    (by intro b hb; simp at hb; subst hb; simp) (by decide) rfl
+    rfl (by simp [geoS, geoP]) (by decide) rfl (by simp [geoS, geoP]) rfl (bytesV_lab _ _ (by decide)) rfl
+    (by
+      intro op hop
+      simp only [List.mem_cons, List.mem_nil_iff, or_false] at hop
+      rcases hop with h | h | h | h <;> subst h
+      · show 40 ≤ 50; decide
+      · trivial
+      · exact ⟨1, ⟨by simp [geoS, geoP], fun k b hk => by
+          match k, hk with
+          | 0, hk => exact ⟨.pub, by simp at hk; subst hk; rfl, by decide⟩
+          | 1, hk => exact ⟨.pub, by simp at hk; subst hk; rfl, by decide⟩⟩⟩
+      · show 50 ≤ 50; decide)
+  have hf : (trngRead [.eintr, .err 5, .eagain, .ok (List.replicate 32 5)] (zeros 32) 0).1 = false := rfl
+  have hr : ret = 0 := by
+    have hne : ret ≠ 1 := fun h => by have := h2.1 h; rw [hf] at this; exact Bool.noConfusion this
+    have : ret = 1 ∨ ret = 0 := by
+      simp only [Prng.init, Prng.initUser, Ent.request] at h1
+      have := (Prod.mk.inj (Option.some.inj h1)).1
+      rw [← this]; split <;> simp
+    rcases this with h | h
+    · exact absurd h hne
+    · exact h
+  subst hr
+  exact ⟨fuel, st0, p0, e0, p', e', t, N', st', h1, h3, h4, h5, h6⟩
 
 end TJ.Props.NonVacuous
